@@ -88,20 +88,22 @@ Entry(r, rep) ==
   LET c1 == rep.c1
       c2 == IF SecondFromOwn \/ rep.c2 = None THEN rep.c2 ELSE (IF rep.c1 # None THEN rep.c1 ELSE rep.c2)
   IN [lo |-> r[1], hi |-> r[2], c1 |-> c1, c2 |-> c2, type |-> Type(c1, c2)]
-RepChoices == {f \in [Groups -> DMap] : \A g \in Groups : f[g] \in g}
-Out(rep) == UNION {{Entry(r, rep[g]) : r \in Runs(g)} : g \in Groups}
+(* a choice of representatives: a set with exactly one member of every group (the groups partition DMap) *)
+RepChoices == {R \in SUBSET DMap : \A g \in Groups : Cardinality(R \cap g) = 1}
+Out(R) == UNION {{Entry(r, CHOOSE e \in R : e \in g) : r \in Runs(g)} : g \in Groups}
 
 ---------------------------------------------------------------------------
 (* C04 on this pipeline: every address is covered by exactly one entry of the right type carrying exactly c1 and c2 - or by   *)
 (* none when neither side has a connection there                                                                             *)
-PointwiseOK(out) ==
+PointwiseOKFor(x1, x2, out) ==
   \A a \in Addr :
-    LET c1 == ConnAt(b1, a)
-        c2 == ConnAt(b2, a)
+    LET c1 == ConnAt(x1, a)
+        c2 == ConnAt(x2, a)
         cover == {e \in out : e.lo <= a /\ a <= e.hi}
     IN IF c1 = None /\ c2 = None THEN cover = {}
        ELSE /\ Cardinality(cover) = 1
             /\ \A e \in cover : e.c1 = c1 /\ e.c2 = c2 /\ e.type = Type(c1, c2)
+PointwiseOK(out) == PointwiseOKFor(b1, b2, out)
 MaximalOK(out) == \A e, f \in out : (e.hi + 1 = f.lo) => (e.c1 # f.c1 \/ e.c2 # f.c2)
 
 PointwiseExact == Complete => \A rep \in RepChoices : PointwiseOK(Out(rep))
